@@ -112,9 +112,54 @@ FILTERED = {
                          "modsubroutines", "modfunctions"},
     "FortranSubroutine": {"functions", "subroutines", "types", "interfaces", "absinterfaces", "variables"},
     "FortranProgram": {"functions", "subroutines", "types", "interfaces", "absinterfaces", "variables"},
+    "FortranFunction": {"functions", "subroutines", "types", "interfaces", "absinterfaces", "variables"},
+    "FortranModuleProcedureImplementation": {"functions", "subroutines", "types", "interfaces", "absinterfaces", "variables"},
     "FortranType": {"boundprocs", "variables"},
     "FortranBlockData": {"types", "variables"},
 }
+
+
+_SAMPLE = """module m
+type t
+integer :: c
+end type t
+interface
+module subroutine ms()
+end subroutine ms
+end interface
+contains
+subroutine s()
+end subroutine s
+function f()
+end function f
+end module m
+submodule (m) sm
+contains
+module procedure ms
+end procedure ms
+end submodule sm
+program p
+end program p
+block data bd
+integer :: q
+end block data bd
+"""
+_OBJ = {}
+
+
+def real_obj(clsname):
+    """the `obj` tag the real constructors give to instances of the class (read off a real parse)"""
+    if not _OBJ:
+        from fv import cascade
+
+        f = cascade.parse_source(_SAMPLE)
+        stack = [f]
+        while stack:
+            e = stack.pop()
+            _OBJ.setdefault(type(e).__name__, getattr(e, "obj", None))
+            for l in ("modules", "submodules", "programs", "blockdata", "subroutines", "functions", "types", "modprocedures"):
+                stack.extend(getattr(e, l, []) or [])
+    return _OBJ.get(clsname)
 
 
 def _prune_ob(clsname, obj, lists, nchild_q, nchild_t):
@@ -123,6 +168,11 @@ def _prune_ob(clsname, obj, lists, nchild_q, nchild_t):
         import ford.sourceform as sf
 
         cls = getattr(sf, clsname)
+        robj = real_obj(clsname)
+        if robj is None:
+            ctx.inconclusive.append(f"cannot obtain a real {clsname} instance to read its `obj` tag")
+            return
+        obj_ = robj
         ctx.encode_fn(cls.prune, clsname + ".prune")
         ctx.encode_fn(sf.FortranBase._should_display)
         ctx.encode_fn(sf.FortranBase.filter_display)
@@ -134,10 +184,10 @@ def _prune_ob(clsname, obj, lists, nchild_q, nchild_t):
         filtered = FILTERED[clsname]
 
         def h(E):
-            o, kids = _standin(E, cls, lists, nchild, obj)
+            o, kids = _standin(E, cls, lists, nchild, obj_)
             h.state = (o, kids)
             internals_off = z3.BoolVal(False)
-            if obj == "proc" and issubclass(cls, sf.FortranCodeUnit):
+            if obj_ == "proc" and issubclass(cls, sf.FortranCodeUnit):
                 internals_off = z3.Not(sym.bterm(o.meta.proc_internals))
             o.prune()
             E.reachable("pruned")
@@ -182,6 +232,8 @@ CU = ["functions", "subroutines", "types", "interfaces", "absinterfaces", "varia
 _prune_ob("FortranModule", "module", CU, {l: 1 for l in CU}, {"functions": 2, "subroutines": 1, "types": 2, "interfaces": 1, "absinterfaces": 1, "variables": 2})
 _prune_ob("FortranSubroutine", "proc", CU, {l: 1 for l in CU}, {"functions": 2, "subroutines": 1, "types": 1, "interfaces": 1, "absinterfaces": 1, "variables": 2})
 _prune_ob("FortranProgram", "program", CU, {l: 1 for l in CU}, {"functions": 1, "subroutines": 2, "types": 1, "interfaces": 1, "absinterfaces": 1, "variables": 2})
+_prune_ob("FortranFunction", "proc", CU, {"functions": 1, "types": 1, "variables": 1}, {l: 1 for l in CU})
+_prune_ob("FortranModuleProcedureImplementation", "proc", CU, {"subroutines": 1, "types": 1, "variables": 1}, {l: 1 for l in CU})
 SM = CU + ["modprocedures", "modsubroutines", "modfunctions"]
 _prune_ob("FortranSubmodule", "submodule", SM, {l: 1 for l in ["functions", "types", "variables", "modprocedures", "modsubroutines", "modfunctions"]},
           {l: 1 for l in SM})
